@@ -219,3 +219,95 @@ func H04_ops() {
 	}
 	sv.Reach("compared")
 }
+
+// H04_sets: union / intersect / diff are the order-preserving de-duplicating
+// set operations of the documentation. Three base numbers are symbolic
+// (pairwise clearly apart, as C18's sameness requires); every element of the
+// two operand lists is one of them, chosen by a selector, so every pattern
+// of repetition and relative order up to the size bound is covered and each
+// path holds for all values of the base numbers.
+//
+//	union(xs, ys)     = the distinct elements of xs ++ ys, first occurrences, in that order
+//	intersect(xs, ys) = the distinct elements of xs that occur in ys, in the order of xs
+//	diff(xs, ys)      = the distinct elements of xs that do not occur in ys, in the order of xs
+func H04_sets() {
+	e := Eng()
+	fn := []string{"union", "intersect", "diff"}[sv.Choice("fn", 3)]
+	src := fn + "(xs, ys)"
+	tys := map[string]*types.Type{"xs": types.List(types.Num), "ys": types.List(types.Num)}
+	names := []string{"xs", "ys"}
+	expr, _, cls := FrontOnce(e, src, tys, names)
+	sv.Assert("accepted", cls == "ok")
+	var base [3]float64
+	for k := range base {
+		base[k] = sv.Float64("v" + itoa(k))
+		sv.Assume(finiteSafe(base[k]))
+		for j := 0; j < k; j++ {
+			sv.Assume(sv.Or(base[k]-base[j] > 1, base[j]-base[k] > 1))
+		}
+	}
+	nx, ny := sv.Choice("xs.len", 4), sv.Choice("ys.len", 3+thoroughExtra())
+	pick := func(name string, n int) (*val.Val, []int) {
+		l := val.List(types.List(types.Num).List(), n).List()
+		idx := make([]int, n)
+		for k := 0; k < n; k++ {
+			idx[k] = sv.Choice(name+"["+itoa(k)+"]", 3)
+			l.V[k] = val.Num(base[idx[k]])
+		}
+		return l.Vl(), idx
+	}
+	xs, xi := pick("xs", nx)
+	ys, yi := pick("ys", ny)
+	has := func(l []int, v int) bool {
+		for _, x := range l {
+			if x == v {
+				return true
+			}
+		}
+		return false
+	}
+	var want []int
+	add := func(v int) {
+		if !has(want, v) {
+			want = append(want, v)
+		}
+	}
+	switch fn {
+	case "union":
+		for _, v := range xi {
+			add(v)
+		}
+		for _, v := range yi {
+			add(v)
+		}
+	case "intersect":
+		for _, v := range xi {
+			if has(yi, v) {
+				add(v)
+			}
+		}
+	default:
+		for _, v := range xi {
+			if !has(yi, v) {
+				add(v)
+			}
+		}
+	}
+	res, c := runAll(e, expr, map[string]*val.Val{"xs": xs, "ys": ys}, names)
+	for b := 0; b < NBackends; b++ {
+		sv.Assert("yields-value:"+BackendNames[b], c[b] == "ok")
+		if c[b] != "ok" {
+			continue
+		}
+		r := res[b]
+		ok := r != nil && r.Type != nil && r.Type.Kind == types.KList && len(r.List().V) == len(want)
+		if ok {
+			for k, v := range want {
+				el := r.List().V[k]
+				ok = sv.And(ok, el != nil && el.Type != nil && el.Type.Kind == types.KNum && sv.Same(el.Num().V, base[v]))
+			}
+		}
+		sv.Assert("documented-set-operation:"+BackendNames[b], ok)
+	}
+	sv.Reach("compared")
+}
